@@ -265,3 +265,56 @@ Example ex_xattr_line :
 Proof. vm_compute. reflexivity. Qed.
 Example ex_xattr_hex : xattr_decode ([48; 120; 52; 49; 52; 50] ++ [0]) = Ok [65; 66].
 Proof. vm_compute. reflexivity. Qed.
+
+(* ---- non-vacuity of resolve_link_good / resolve_link_dir / resolve_link_dangling: their hypotheses (chain, links_in, ...)
+   exhibited on one heap built by the model (independent audit) ---- *)
+From Coq Require Import Lia.
+(* f (file), d (dir), a -> f, b -> a, c -> d, x -> z (dangling) *)
+Definition gap_es := [mkEntry [102] EOther; mkEntry [100] EDir; mkEntry [97] (EHard [102]); mkEntry [98] (EHard [97]);
+                  mkEntry [99] (EHard [100]); mkEntry [120] (EHard [122])].
+Definition gap_h : list node := match build gap_es with Ok fs => heap fs | _ => [] end.
+
+Lemma gap_c1 : chain gap_h 4%nat 1 3%nat.
+Proof. eapply chain_S; [vm_compute; reflexivity|apply chain_0]. Qed.
+Lemma gap_c2 : chain gap_h 4%nat 2 1%nat.
+Proof. eapply chain_S; [vm_compute; reflexivity|]. eapply chain_S; [vm_compute; reflexivity|apply chain_0]. Qed.
+Lemma gap_c3 : chain gap_h 5%nat 1 2%nat.
+Proof. eapply chain_S; [vm_compute; reflexivity|apply chain_0]. Qed.
+
+(* all hypotheses of resolve_link_good: b -> a -> f, m = max_hops = 7 *)
+Example ex_resolve_link_good_hyps :
+  exists tn sn tg,
+  chain gap_h 4%nat 2 1%nat /\ deref gap_h 1%nat = Ok tn /\ n_kind tn = KOther /\ n_links tn <> link_max /\
+  deref gap_h 4%nat = Ok sn /\ n_kind sn = KLinkU tg /\ avoids gap_h 4%nat 4%nat 2 /\ N.of_nat 2 <= 7.
+Proof.
+  eexists; eexists; eexists. split; [exact gap_c2|].
+  split; [vm_compute; reflexivity|]. split; [reflexivity|]. split; [vm_compute; discriminate|].
+  split; [vm_compute; reflexivity|]. split; [reflexivity|]. split; [|vm_compute; discriminate].
+  intros j q Hj Hc. assert (j = 1 \/ j = 2)%nat as [->| ->] by lia.
+  - rewrite (chain_det _ _ _ _ _ Hc gap_c1). discriminate.
+  - rewrite (chain_det _ _ _ _ _ Hc gap_c2). discriminate.
+Qed.
+
+(* all hypotheses of resolve_link_dir: c -> d *)
+Example ex_resolve_link_dir_hyps :
+  exists tn ch,
+  chain gap_h 5%nat 1 2%nat /\ deref gap_h 2%nat = Ok tn /\ n_kind tn = KDir ch /\ avoids gap_h 5%nat 5%nat 1 /\ N.of_nat 1 <= 7.
+Proof.
+  eexists; eexists. split; [exact gap_c3|]. split; [vm_compute; reflexivity|]. split; [reflexivity|].
+  split; [|vm_compute; discriminate].
+  intros j q Hj Hc. assert (j = 1)%nat as -> by lia. rewrite (chain_det _ _ _ _ _ Hc gap_c3). discriminate.
+Qed.
+
+(* all hypotheses of resolve_link_dangling: x -> z *)
+Example ex_resolve_link_dangling_hyps :
+  chain gap_h 6%nat 0 6%nat /\ hop gap_h 6%nat = Err c_ENOENT /\ avoids gap_h 6%nat 6%nat 0 /\ N.of_nat 0 < 7.
+Proof.
+  split; [apply chain_0|]. split; [vm_compute; reflexivity|]. split; [|vm_compute; reflexivity].
+  intros j q Hj. lia.
+Qed.
+
+(* and the conclusions compute *)
+Example ex_resolve_link_results :
+  (exists h', resolve_link 8 gap_h 4%nat (Some 7) = Ok h') /\ resolve_link 8 gap_h 5%nat (Some 7) = Err c_EPERM /\
+  resolve_link 8 gap_h 6%nat (Some 7) = Err c_ENOENT.
+Proof. vm_compute. split; [eexists; reflexivity|split; reflexivity]. Qed.
